@@ -87,6 +87,36 @@ fn c08_toy_slice_reinterpretation() {
     kani::cover!(true);
 }
 
+
+// a base-element slice whose length is not a multiple of the extension degree cannot be reinterpreted without losing a value:
+// it is refused (documented panic = the expected failure; the marker after the call must not be reachable for such lengths)
+// @ob id=C08 tier=quick req=1 to=600 expect=fail forbid="PARTIAL-ELEMENT" refuse_in="slice_from_base_elements" funcs="QuadExtension::slice_from_base_elements,CubeExtension::slice_from_base_elements" bounds="0..=6 base elements" sym="length, all elements" desc="slice_from_base_elements returns only for lengths divisible by the extension degree, and then preserves every value; other lengths are refused"
+#[kani::proof]
+#[kani::unwind(10)]
+#[kani::stub(alloc::fmt::format, nofmt)]
+fn c08_toy_slice_from_base_lengths() {
+    let b = [el(), el(), el(), el(), el(), el()];
+    let n: usize = kani::any();
+    kani::assume(n <= 6);
+    if kani::any() {
+        let q = Q::slice_from_base_elements(&b[..n]);
+        assert!(n % 2 == 0, "PARTIAL-ELEMENT accepted by QuadExtension::slice_from_base_elements");
+        assert!(q.len() * 2 == n, "PARTIAL-ELEMENT quad length");
+        let i: usize = kani::any();
+        kani::assume(i < n);
+        assert!(q[i / 2].base_element(i % 2) == b[i], "PARTIAL-ELEMENT quad value");
+        kani::cover!(n == 4);
+    } else {
+        let c = C::slice_from_base_elements(&b[..n]);
+        assert!(n % 3 == 0, "PARTIAL-ELEMENT accepted by CubeExtension::slice_from_base_elements");
+        assert!(c.len() * 3 == n, "PARTIAL-ELEMENT cube length");
+        let i: usize = kani::any();
+        kani::assume(i < n);
+        assert!(c[i / 3].base_element(i % 3) == b[i], "PARTIAL-ELEMENT cube value");
+        kani::cover!(n == 6);
+    }
+}
+
 // @ob id=C08 tier=quick req=1 to=600 expect=fail desc="vacuity twin: a non-zero cubic element reaches the product check"
 #[kani::proof]
 #[kani::unwind(12)]
